@@ -14,9 +14,9 @@ import (
 	"errors"
 	"fmt"
 	"io"
-	"os"
 	"math/rand/v2"
 	"net"
+	"os"
 	"sync"
 	"testing"
 	"time"
@@ -42,6 +42,7 @@ type flowSpec struct {
 	ewd      bool   // terminal error handed to the rx pump together with the last bytes
 	bufKinds []int  // reader buffer size choices
 	dlPoll   bool   // the reader polls: some reads are made with an already expired read deadline
+	zero     string // underlying reads that return (0, nil) ("nothing happened"): "" none, or a kind of mkZero
 }
 
 type caseSpec struct {
@@ -61,6 +62,9 @@ func (c *caseSpec) sig() string {
 			s += fmt.Sprintf(",%d", len(w))
 		}
 		s += fmt.Sprintf("|partial=%v|wf%d|rf%d|ewd=%v|bufs%v|dl=%v", f.partial, f.wfaultAt, f.rfaultAt, f.ewd, f.bufKinds, f.dlPoll)
+		if f.zero != "" {
+			s += "|zero=" + f.zero
+		}
 	}
 	return s
 }
@@ -77,6 +81,74 @@ func mkChunker(kind string, rng *rand.Rand) g4pipe.Chunker {
 		return g4pipe.Random(rng, 300)
 	}
 	return g4pipe.All
+}
+
+// zeroKinds: where the underlying stream answers a Read with (0, nil) although
+// the rx pump passed a non-empty buffer. io.Reader allows it and says the caller
+// must treat it as "nothing happened", in particular not as the end of the stream.
+var zeroKinds = []string{"first", "start3", "once", "rand", "runs", "before-end", "everywhere"}
+
+// mkZero builds the decision function for Half.ZeroReads. Every kind answers
+// false eventually, so a retrying reader always makes progress.
+func mkZero(kind string, rng *rand.Rand, streamLen int) func(pos, avail int) bool {
+	run := 0       // zero reads still to be answered in the current run
+	fired := false // one-shot kinds
+	onceAt := 0
+	if streamLen > 0 {
+		onceAt = rng.IntN(streamLen)
+	}
+	started := 0
+	endZeros := 1 + rng.IntN(3)
+	return func(pos, avail int) bool {
+		if run > 0 {
+			run--
+			return true
+		}
+		switch kind {
+		case "first": // the very first read
+			if !fired {
+				fired = true
+				return true
+			}
+		case "start3": // the first three reads
+			if started < 3 {
+				started++
+				return true
+			}
+		case "once": // once, somewhere in the middle
+			if !fired && pos >= onceAt {
+				fired = true
+				return true
+			}
+		case "rand": // every fourth delivery on average is preceded by one
+			if avail > 0 && rng.IntN(4) == 0 {
+				return true
+			}
+		case "runs": // runs of 2..6
+			if avail > 0 && rng.IntN(8) == 0 {
+				run = 1 + rng.IntN(5)
+				return true
+			}
+		case "before-end": // between the last data and the terminal error
+			if avail == 0 && endZeros > 0 {
+				endZeros--
+				return true
+			}
+		case "everywhere":
+			if avail == 0 {
+				if endZeros > 0 {
+					endZeros--
+					return true
+				}
+			} else if rng.IntN(2) == 0 {
+				if rng.IntN(4) == 0 {
+					run = rng.IntN(4)
+				}
+				return true
+			}
+		}
+		return false
+	}
 }
 
 var bufChoices = []int{0, 1, 7, 100, 2047, 2048, 2049, 4096, 65536}
@@ -147,6 +219,14 @@ func genCase(r *vf.Run, idx int) *caseSpec {
 	c.flows = []*flowSpec{genFlow(rng, c)}
 	if c.duplex {
 		c.flows = append(c.flows, genFlow(rng, c))
+	}
+	// (0, nil) underlying reads: drawn from an independent PRNG stream, so the
+	// rest of the case list is the same as without them
+	zrng := rand.New(rand.NewPCG(r.Seed(), uint64(idx)*2+1_000_001))
+	for _, f := range c.flows {
+		if zrng.IntN(5) < 2 {
+			f.zero = zeroKinds[zrng.IntN(len(zeroKinds))]
+		}
 	}
 	return c
 }
@@ -348,6 +428,9 @@ func runCase(r *vf.Run, c *caseSpec) {
 				h.FaultReadAt(f.rfaultAt, g4pipe.ErrFault)
 			}
 			h.ErrWithData(f.ewd)
+			if f.zero != "" {
+				h.ZeroReads(mkZero(f.zero, rand.New(rand.NewPCG(r.Seed(), uint64(c.idx)*8+uint64(i)+5_000_003)), len(f.stream)))
+			}
 		}
 	}
 	var la, lb net.Addr = strAddr("a"), strAddr("b")
@@ -390,6 +473,10 @@ func runCase(r *vf.Run, c *caseSpec) {
 		nrd, hash := h.ReadStats()
 		r.Distinct("underlying_read_schedules", fmt.Sprint(nrd, hash))
 		r.Count("underlying_reads", nrd)
+		if z := h.ZeroReadCount(); z > 0 {
+			r.Count("underlying_reads_returning_0_nil", z)
+			r.Count("flows_with_0_nil_underlying_reads/"+c.flows[i].zero, 1)
+		}
 		r.Count("conn_reads", res.reads)
 		r.Count("conn_short_buffer_reads", res.shorts)
 		r.Count("conn_reads_with_expired_deadline", res.polled)
@@ -420,7 +507,7 @@ func runCase(r *vf.Run, c *caseSpec) {
 func TestCheck(t *testing.T) {
 	r := vf.Start(t, "C09", vf.Exploration)
 	defer r.Finish()
-	r.SetRule("case = (1-40 writes of sizes {1,2,2047,2048,2049,4096,4097,10240} or PRNG 1..10240 through the real Conn.Write, optionally with an underlying writer accepting PRNG-sized parts of each write, optionally both directions at once) x (chunking of the underlying reads seen by the rx pump {1 byte, PRNG, PRNG<=3, PRNG<=300, as much as possible}, bounded or unbounded pipe, queue length {1,2,10,default}) x (reader buffer sizes from {0,1,7,100,2047,2048,2049,4096,65536,PRNG} per read) x (end: EOF, injected underlying read error after k bytes, underlying write error after k bytes; terminal error alone or together with the last bytes). " +
+	r.SetRule("case = (1-40 writes of sizes {1,2,2047,2048,2049,4096,4097,10240} or PRNG 1..10240 through the real Conn.Write, optionally with an underlying writer accepting PRNG-sized parts of each write, optionally both directions at once) x (chunking of the underlying reads seen by the rx pump {1 byte, PRNG, PRNG<=3, PRNG<=300, as much as possible}, bounded or unbounded pipe, queue length {1,2,10,default}) x (reader buffer sizes from {0,1,7,100,2047,2048,2049,4096,65536,PRNG} per read) x (underlying reads answering (0, nil) with a non-empty buffer, which io.Reader allows and which must not be taken for the end: none (3/5 of the flows) | the first read | the first three | once mid-stream | PRNG before a quarter of the deliveries | runs of 2-6 | between the last byte and the terminal error | everywhere) x (end: EOF, injected underlying read error after k bytes, underlying write error after k bytes; terminal error alone or together with the last bytes). " +
 		"Oracle: model position in the written stream; every Read's bytes must equal stream[pos:pos+n]; after a read that returned io.ErrShortBuffer the position skips to the end of the underlying chunk (the harness logged every underlying read); a third of the flows poll: some reads are made with an already expired read deadline (a fixed past instant) and may time out, a timed-out read must return 0 bytes and consume nothing; a terminal error is only allowed once the underlying stream handed EOF/E to the rx pump, must come after all delivered bytes were read, and must be that EOF/E. Non-trivial = flow completed and judged; distinct = distinct write-size sequences and parameters.")
 	n := r.N(400, 4000)
 	var wg sync.WaitGroup
